@@ -5,3 +5,5 @@ pub mod core;
 pub mod number;
 #[cfg(not(feature = "number"))]
 pub mod util;
+#[cfg(all(feature = "verif", not(feature = "number")))]
+pub mod verif;
